@@ -173,20 +173,20 @@ ExactCounterexamples == {Src(x) : x \in {y \in Exprs : Parse(PrettyToks(M(y))) #
 Sym(n) == [k |-> "lit", kind |-> "symbol", src |-> n, pat |-> Pat("Symbol", "NoComp", n)]
 Str(spelled, e) == [k |-> "lit", kind |-> "string", src |-> "\"" \o spelled \o "\"", pat |-> Pat("Terminal", "Equals", e)]
 Rx(body) == [k |-> "lit", kind |-> "regexp", src |-> "/" \o body \o "/", pat |-> Pat("Terminal", "Regexp", body)]
-SeqOf(es) == [k |-> "seq", es |-> es]
-AltOf(es) == [k |-> "alt", es |-> es]
-OptOf(e) == [k |-> "opt", e |-> e]
-RepOf(e, r) == [k |-> "rep", r |-> r, e |-> e]
+SeqE(es) == [k |-> "seq", es |-> es]
+AltE(es) == [k |-> "alt", es |-> es]
+OptE(e) == [k |-> "opt", e |-> e]
+RepE(e, r) == [k |-> "rep", r |-> r, e |-> e]
 Rule(n, u, e) == [name |-> n, unwrap |-> u, e |-> e]
 GramLark == <<
-  Rule("entry", "", RepOf(Sym("rule"), "+")),
-  Rule("rule", "", SeqOf(<<Sym("symbol"), OptOf(SeqOf(<<Str("[", "["), Sym("unwrap"), Str("]", "]")>>)), Str(":=", ":="), Sym("expr"), Str("\\n", "\n")>>)),
+  Rule("entry", "", RepE(Sym("rule"), "+")),
+  Rule("rule", "", SeqE(<<Sym("symbol"), OptE(SeqE(<<Str("[", "["), Sym("unwrap"), Str("]", "]")>>)), Str(":=", ":="), Sym("expr"), Str("\\n", "\n")>>)),
   Rule("expr", "1", Sym("terms_or")),
-  Rule("terms_or", "1", SeqOf(<<Sym("terms"), RepOf(SeqOf(<<Str("|", "|"), Sym("terms")>>), "*")>>)),
-  Rule("terms", "1", RepOf(Sym("term"), "+")),
-  Rule("term", "1", AltOf(<<Sym("symbol"), Sym("string"), Sym("regexp"), Sym("expr_opt"), Sym("expr_rep")>>)),
-  Rule("expr_opt", "", SeqOf(<<Str("[", "["), Sym("expr"), Str("]", "]")>>)),
-  Rule("expr_rep", "", SeqOf(<<Str("(", "("), Sym("expr"), Str(")", ")"), OptOf(Sym("repeat"))>>)),
+  Rule("terms_or", "1", SeqE(<<Sym("terms"), RepE(SeqE(<<Str("|", "|"), Sym("terms")>>), "*")>>)),
+  Rule("terms", "1", RepE(Sym("term"), "+")),
+  Rule("term", "1", AltE(<<Sym("symbol"), Sym("string"), Sym("regexp"), Sym("expr_opt"), Sym("expr_rep")>>)),
+  Rule("expr_opt", "", SeqE(<<Str("[", "["), Sym("expr"), Str("]", "]")>>)),
+  Rule("expr_rep", "", SeqE(<<Str("(", "("), Sym("expr"), Str(")", ")"), OptE(Sym("repeat"))>>)),
   Rule("symbol", "", Rx("[a-zA-Z_]\\w*")),
   Rule("string", "", Rx("\"[^\"]+\"")),
   Rule("regexp", "", Rx("[\\/].+[\\/]")),
